@@ -42,6 +42,49 @@ def fingerprint(v, depth=0):
     return None
 
 
+def smoke() -> dict:
+    """Whatever is loaded is usable: each documented per-section entry point of the modules loaded SO FAR (by the steps, directly or
+    transitively) is called once on three lines. An interpreter that imported only part of the package must get the same answers
+    as one that imported everything — a module that imports fine but needs a sibling somebody else happened to load is not
+    "importable first"."""
+    import io
+
+    out = {}
+    m = sys.modules
+
+    def run(name, fn):
+        try:
+            out[name] = repr(fn())[:400]
+        except BaseException as e:  # noqa
+            out[name] = f"raised {type(e).__name__}: {e}"[:300]
+
+    S, G, I, M, C, T = (m.get("chartparse." + k) for k in ("sync", "globalevents", "instrument", "metadata", "chart", "tick"))
+    st = None
+    if S is not None:
+        try:
+            st = S.SyncTrack.from_chart_lines(192, ["  0 = TS 4", "  0 = B 120000", "  192 = B 90000"])
+        except BaseException:  # noqa
+            st = None
+        run("sync", lambda: [(e.tick, str(e.timestamp), e.bpm) for e in S.SyncTrack.from_chart_lines(192, ["  0 = TS 4", "  0 = B 120000", "  192 = B 90000"]).bpm_events])
+    if G is not None and st is not None:
+        run("globalevents", lambda: [(e.tick, str(e.timestamp), e.value) for e in
+                                     G.GlobalEventsTrack.from_chart_lines(['  0 = E "section a"', '  192 = E "lyric b"', '  384 = E "c"'], st.bpm_events).section_events])
+    if I is not None and st is not None:
+        run("instrument", lambda: [(n.tick, str(n.timestamp), n.note.name, n.hopo_state.name) for n in
+                                   I.InstrumentTrack.from_chart_lines(I.Instrument.GUITAR, I.Difficulty.EXPERT,
+                                                                      ["  0 = N 0 0", "  192 = S 2 10", "  192 = N 1 5", "  192 = E solo"], st.bpm_events).note_events])
+    if M is not None:
+        run("metadata", lambda: (lambda md: (md.resolution, md.name, md.offset))(M.Metadata.from_chart_lines(["  Resolution = 192", '  Name = "x"'])))
+    if T is not None:
+        run("tick", lambda: T.seconds_from_ticks_at_bpm(96, 120.0, 192))
+    if C is not None:
+        text = ('[Song]\n{\n  Resolution = 192\n}\n[SyncTrack]\n{\n  0 = TS 4\n  0 = B 120000\n}\n[Events]\n{\n  0 = E "section a"\n}\n'
+                '[ExpertSingle]\n{\n  0 = N 0 0\n  96 = N 1 0\n}\n')
+        run("chart", lambda: (lambda c: (len(c.sync_track.bpm_events), [(i.name, [d.name for d in v]) for i, v in c.instrument_tracks.items()]))(
+            C.Chart.from_file(io.StringIO(text))))
+    return out
+
+
 def main() -> None:
     repo = sys.argv[1]
     job = json.loads(sys.argv[2])
@@ -93,7 +136,12 @@ def main() -> None:
                       "exc": type(e).__name__, "msg": str(e)[:300]}
             break
     snapshot = None
+    used = None
     if failed is None:
+        try:
+            used = smoke()
+        except BaseException as e:  # noqa
+            used = {"smoke": f"raised {type(e).__name__}: {e}"[:300]}
         try:
             mods = {}
             for m in sorted(job["modules"]):
@@ -117,7 +165,7 @@ def main() -> None:
         except BaseException as e:  # noqa
             failed = {"step": len(job["steps"]), "form": "completion", "module": "?", "name": None,
                       "exc": type(e).__name__, "msg": str(e)[:300]}
-    print(json.dumps({"failed": failed, "exec_order": exec_order, "snapshot": snapshot}))
+    print(json.dumps({"failed": failed, "exec_order": exec_order, "snapshot": snapshot, "used": used}))
 
 
 main()
